@@ -229,6 +229,27 @@ def build_pool(seed, quick):
     add("bls", "pop.PopVerify", 1, lambda: (Pp.PopVerify, [MB.sk_to_pk(sks[0]), MB.pop_prove(sks[0])]))
     fm = b"fast"
     add("bls", "pop.FastAggregateVerify", 1, lambda: (Pp.FastAggregateVerify, [[MB.sk_to_pk(s) for s in sks], fm, MB.aggregate([MB.sign("pop", s, fm) for s in sks])]))
+    # ---- hostile but cheap BLS probes whose answer must not depend on what ran before, valid keys that cancel, and a soak
+    from ..model import zcash as Zm
+    idk, infsig = Zm.enc_g1(None), Zm.enc_g2(None)
+    skc = sks[0]
+    add("bls", "KeyValidate(identity)", 2, lambda: (cs.G2Basic.KeyValidate, [idk]))
+    add("bls", "pop.KeyValidate(identity)", 1, lambda: (Pp.KeyValidate, [idk]))
+    add("bls", "Verify(identity key, m, infinity)", 2, lambda: (cs.G2Basic.Verify, [idk, b"m", infsig]))
+    add("bls", "pop.PopVerify(identity, infinity)", 1, lambda: (Pp.PopVerify, [idk, infsig]))
+    add("bls", "pop.FastAggregateVerify([pk, -pk])", 2, lambda: (Pp.FastAggregateVerify, [[MB.sk_to_pk(skc), MB.sk_to_pk(Sb.r - skc)], b"m", infsig]))
+    add("bls", "aug.AggregateVerify([pk, identity])", 1, lambda: (cs.G2MessageAugmentation.AggregateVerify, [[MB.sk_to_pk(skc), idk], [b"a", b"b"], MB.sign("aug", skc, b"a")]))
+
+    def soak(n, salt):
+        def f(count, salt_):
+            r_ = random.Random(salt_)
+            acc = 0
+            for _ in range(count):
+                acc += bool(cs.G2Basic.KeyValidate(r_.randbytes(48)))
+            return acc
+        return f, [n, salt]
+    add("bls", "soak:KeyValidate x1100 distinct keys", 0.6, lambda: soak(1100, 7))
+    add("hash", "soak:xmd x300 distinct messages", 0.5, lambda: ((lambda n: hashlib.sha256(b"".join(hm.expand_message_xmd(i.to_bytes(4, "big"), b"dst", 48, HASHES["sha256"]) for i in range(n))).hexdigest()), [300]))
     # ---- operations that are refused half-way (an exception must not leave anything behind)
     add("raising", "xmd(ell>255)", 1, lambda: (hm.expand_message_xmd, [b"m", b"dst", 255 * 32 + 1, HASHES["sha256"]]))
     add("raising", "hash_to_G2(dst=256 bytes)", 1, lambda: (h2c.hash_to_G2, [b"m", b"d" * 256, HASHES["sha256"]]))
